@@ -63,7 +63,13 @@ pub fn stroke_rect<T: Copy>(mut mask: NdTensorViewMut<T, 2>, rect: Rect, value: 
 }
 
 /// Fill all points inside `rect` with the value `value`.
+///
+/// Parts of `rect` that lie outside the image are ignored.
 pub fn fill_rect<T: Copy>(mut mask: NdTensorViewMut<T, 2>, rect: Rect, value: T) {
+    let img_height = i32::try_from(mask.rows()).unwrap_or(i32::MAX);
+    let img_width = i32::try_from(mask.cols()).unwrap_or(i32::MAX);
+    let rect = rect.clamp(Rect::from_hw(img_height, img_width));
+
     for y in rect.top()..rect.bottom() {
         for x in rect.left()..rect.right() {
             mask[[y as usize, x as usize]] = value;
